@@ -495,9 +495,22 @@ def extract_out_sites(repo: Path):
             if 'out' not in params and 'output' not in params:
                 continue
             found = []
+            # (Round 2) position of the `out` parameter of every function of this module, for positional forwarding
+            out_pos = {g.name: [a.arg for a in g.args.args].index('out') for g in tree.body
+                       if isinstance(g, ast.FunctionDef) and 'out' in [a.arg for a in g.args.args]}
             for node in ast.walk(fn):
+                # (Round 2) whole-buffer stores `x[...] = expr` and `return <name>`: the copy-back and the returned buffer
+                if (isinstance(node, ast.Assign) and len(node.targets) == 1 and isinstance(node.targets[0], ast.Subscript)
+                        and isinstance(node.targets[0].value, ast.Name)
+                        and isinstance(node.targets[0].slice, ast.Constant) and node.targets[0].slice.value is Ellipsis):
+                    found.append(f"store:{node.targets[0].value.id}[...]={_src(node.value)}")
+                if isinstance(node, ast.Return) and isinstance(node.value, ast.Name):
+                    found.append(f"return:{node.value.id}")
                 if isinstance(node, ast.Call):
                     name = getattr(node.func, 'id', None) or getattr(node.func, 'attr', None)
+                    if isinstance(node.func, ast.Name) and name in out_pos and len(node.args) > out_pos[name] \
+                            and _src(node.args[out_pos[name]]) != 'None':
+                        found.append(f"forward:{name}(out={_src(node.args[out_pos[name]])})")
                     if name == '_get_output':
                         if len(node.args) < 3:
                             raise TranslationError(f'{m}.{fn.name}: _get_output call not understood')
